@@ -121,6 +121,11 @@ def run(ctx):
     ttr = acct.random_histories(KIND, specs)
     traces += ttr
     ctx.log("T: %d random histories, %d events" % (len(ttr), sum(len(t["ev"]) for t in ttr)))
+    # ---------------------------------------------------------------- V: real backtests (real Strategy, both simulators)
+    from ..drivers import acct_vivo
+    vtr = acct_vivo.run_many(acct_vivo.specs(KIND, ctx.pick(6, 120), ctx.seed, first_id=tid + len(specs) + 1))
+    traces += vtr
+    ctx.log("V: %d backtests, %d order events" % (len(vtr), sum(len(t["ev"]) for t in vtr)))
     # ---------------------------------------------------------------- TLC decides
     verdicts, results, knife = acct.validate(KIND, traces, ctx.scratch, parts_total=ctx.pick(10, 14), proj="acct")
     bad, named = acct.report(ctx, PID, KIND, traces, verdicts, "acct", "R/T",
@@ -141,18 +146,27 @@ def run(ctx):
     ctx.evaluations = len(traces)
     ctx.coverage.update({
         "traces_validated_against_impl": len(traces), "transitions_replayed": n_r, "random_histories": len(ttr),
+        "in_vivo_backtests": len(vtr), "in_vivo_order_events": sum(len(t["ev"]) for t in vtr),
         "trace_events_checked_by_tlc": sum(len(t["ev"]) for t in traces), "rejected_traces": bad,
         "knife_edge_margin_comparisons_skipped": sum(len(v) for v in knife.values()),
         "fill_effects_and_special_cases_seen": kinds, "samples": samples,
         "rule": "R: one trace per transition of the small Futures.tla instance (shortest witness, prefix driven on the "
                 "real objects, last operation judged from the logged pre-state). T: random legal histories of 30-60 "
-                "operations judged from the initial state. A case counts when it contains >= 1 fill and >= 1 of "
+                "operations judged from the initial state. V: real research.backtest runs (policy strategies, step and fast "
+                "simulator), every Order.__init__/execute/cancel judged from the state observed before the call. A case counts when it contains >= 1 fill and >= 1 of "
                 "{cancel, reduce/close/flip, rejection}; distinct by (leverage, fee, full operation list with values).",
     })
 
 
 def replay(ctx, rp):
     p = rp["payload"]
+    if p.get("vivo"):
+        from ..drivers import acct_vivo
+        tr = acct_vivo.run_one(tuple([1] + list(p["vivo"])))
+        verdicts, _, _ = acct.validate(KIND, [tr], ctx.scratch, parts_total=1, proj=p.get("proj", "acct"))
+        print("replay verdict:", verdicts[1])
+        acct.report(ctx, PID, KIND, [tr], verdicts, p.get("proj", "acct"), "replay")
+        return
     if "ops" not in p:
         print("model-level violation: re-run the model instance", p)
         r = tlc.run("Futures", cfg_text=acct.model_cfg(KIND, p["inst"]), workers=8, timeout=1500)
